@@ -391,7 +391,8 @@ func c15Predicate(r *vh.Result, c *c15Case, pre, post map[string]string, status 
 	carried := c15CarriedAuth(c.Headers)
 	authBad := cfg.Auth != "" && carried != cfg.Auth
 	if authBad {
-		if status != 401 && status != 0 && status != 400 && status != 431 {
+		redirected := c.Level == "cli" && (status == 301 || status == 307 || status == 308) // ServeMux, before the handler
+		if status != 401 && status != 0 && status != 400 && status != 431 && !redirected {
 			fail(cfg.Kind+"/auth-bypass", fmt.Sprintf("request carrying Authorization %q (configured %q) was not refused", carried, cfg.Auth))
 		}
 		if len(changed) > 0 {
